@@ -13,7 +13,7 @@ EXPLANATION = (
     "observers are read-only on core state; tallies add exactly the gathered deposit / one count.")
 NOT_DECIDED = "equality of the gathered values with the state beyond 'right accessor, right order'"
 
-TECHNIQUE = ('four-way field agreement (selection flags, storage, resize, gather, copy) read from AST records and guarded writes; executor/ordering rules; observer-inertness by call-graph reachability')
+TECHNIQUE = ('four-way field agreement (selection flags, storage, resize, gather, copy) read from AST records and guarded writes; executor/ordering rules; observer-inertness by call-graph reachability; must-pass of every output assignment in copy_steps')
 
 UNITS = [
     "src/celeritas/user/StepCollector.cc",
